@@ -1374,4 +1374,69 @@ theorem owner_pair_excl_fold (v : List Str) (s s' : CapSet) (h : v.foldlM CapSet
     · rename_i s1 h1
       exact ih s1 h (owner_pair_excl_add h1 hs)
 
+/-! ### `isCapability` and Python's `str.split()` -/
+
+theorem splitWs_go_nospace (s acc : Str) (hs : s.all (fun c => !isSpace c) = true) :
+    splitWs.go s acc = if acc.isEmpty && s.isEmpty then [] else [acc.reverse ++ s] := by
+  induction s generalizing acc with
+  | nil =>
+    simp only [splitWs.go, List.append_nil, List.isEmpty_nil, Bool.and_true]
+  | cons c cs ih =>
+    simp only [List.all_cons, Bool.and_eq_true, Bool.not_eq_true'] at hs
+    simp only [splitWs.go, hs.1, Bool.false_eq_true, if_false]
+    rw [ih _ hs.2]
+    simp
+
+theorem splitWs_go_words (s acc : Str) (hacc : acc.all (fun c => !isSpace c) = true) :
+    ∀ w ∈ splitWs.go s acc, w ≠ [] ∧ w.all (fun c => !isSpace c) = true := by
+  induction s generalizing acc with
+  | nil =>
+    intro w hw
+    simp only [splitWs.go] at hw
+    split at hw
+    · cases hw
+    · rename_i hne
+      rw [List.mem_singleton] at hw
+      subst hw
+      refine ⟨?_, by simpa using hacc⟩
+      intro e
+      have : acc = [] := by simpa using e
+      subst this; simp at hne
+  | cons c cs ih =>
+    intro w hw
+    simp only [splitWs.go] at hw
+    split at hw
+    · split at hw
+      · exact ih [] rfl w hw
+      · rename_i hne
+        rcases List.mem_cons.1 hw with e | e
+        · subst e
+          refine ⟨?_, by simpa using hacc⟩
+          intro e
+          have : acc = [] := by simpa using e
+          subst this; simp at hne
+        · exact ih [] rfl w e
+    · rename_i hc
+      apply ih (c :: acc) _ w hw
+      simp only [List.all_cons, hacc, Bool.and_true]
+      simpa using hc
+
+/-- the model's `isCapability` is Python's `capability.split() == [capability]` -/
+theorem isCapability_eq_splitWs (s : Str) : isCapability s = (splitWs s == [s]) := by
+  unfold isCapability splitWs
+  cases hs : s.all (fun c => !isSpace c) with
+  | true =>
+    rw [splitWs_go_nospace s [] hs]
+    cases s with
+    | nil => rfl
+    | cons c cs => simp
+  | false =>
+    simp only [Bool.and_false]
+    symm
+    rw [beq_eq_false_iff_ne]
+    intro e
+    have := (splitWs_go_words s [] rfl s (by rw [e]; simp)).2
+    rw [hs] at this; cases this
+
+
 end C03
